@@ -563,8 +563,9 @@ def _generate12(rng, index, tier):
 TEXT_OPS = ("delete", "duplicate", "swap", "unbalance-open", "unbalance-close", "quote-open", "backslash-x",
             "backslash-u", "backslash-N", "backslash-end", "non-ascii", "nul", "strip-result", "garbage-char",
             "number-exp", "v2-head", "colon-in-list", "empty-arglist", "list-then-pair", "pair-then-list", "huge-int",
-            "v2-numeric-name", "deep-list")
-CSV_OPS = ("odd-field-name", "odd-field-name-missing", "empty", "header-only", "ragged-short", "ragged-long", "non-numeric", "missing-column", "dup-header",
+            "v2-numeric-name", "deep-list", "deep-chain")
+DEEP_N = (250, 1100, 2500)
+CSV_OPS = ("second-table", "second-table", "odd-field-name", "odd-field-name-missing", "empty", "header-only", "ragged-short", "ragged-long", "non-numeric", "missing-column", "dup-header",
            "truncated", "nul-bytes", "huge", "inf", "nan", "blank-first", "bom", "quoted-cell", "empty-cell")
 FS_OPS = (("open", "in", "ENOENT"), ("open", "in", "EACCES"), ("open", "in", "EMFILE"), ("open", "in", "EIO"),
           ("read", "in", "EIO"), ("open", "out", "EACCES"), ("open", "out", "ENOSPC"), ("open", "out", "EISDIR"),
@@ -693,9 +694,27 @@ def corrupt_text(text, f):
         toks[i] = toks[i] + "\nZZ = Copy(InFieldName = " + "9" * 5000 + ")\n"
     elif op == "v2-numeric-name":
         # a pure EEMS 2.0 style file whose result names come from the field names: a number and words
+        more = ("",
+                "SUM(InFieldNames = [c0, nosuch], NewFieldName = t1)\n",        # misspelled reference in a list
+                "COPYFIELD(InFieldName = nosuch, NewFieldName = t2)\n",         # misspelled direct reference
+                "COPYFIELD(InFieldName = c0)\nCOPYFIELD(InFieldName = nosuch, NewFieldName = t3)\n",   # forgotten NewFieldName
+                "COPYFIELD(InFieldName = 2020, NewFieldName = t4)\n")[f["tok"] % 5]
         return ('READ(InFileName = "in.csv", InFieldName = 2020)\nREAD(InFileName = "in.csv", InFieldName = c0)\n'
                 'SUM(InFieldNames = [c0], NewFieldName = total)\n' + ("COPYFIELD(InFieldName = c0, NewFieldName = 7)\n"
-                                                                      if f["tok2"] % 2 else ""))
+                                                                      if f["tok2"] % 2 else "") + more)
+    elif op == "deep-chain":
+        # a long chain of dependent commands (deeper than the interpreter's default recursion limit for the larger sizes),
+        # written consumer-first or producer-first
+        m = re.search(r'InFileName\s*=\s*("[^"\n]*"|[^\s,()]+)', text)
+        path = m.group(1) if m else '"in.csv"'
+        m = re.search(r'InFieldName\s*=\s*([A-Za-z_][A-Za-z_0-9]*)', text)
+        field = m.group(1) if m else "c0"
+        n = DEEP_N[f["tok"] % len(DEEP_N)]
+        lines = ["D0 = EEMSRead(InFileName = %s, InFieldName = %s)" % (path, field)]
+        lines += ["D%d = Copy(InFieldName = D%d)" % (k, k - 1) for k in range(1, n)]
+        if f["tok2"] % 2:
+            lines.reverse()
+        return "\n".join(lines) + "\n"
     elif op == "deep-list":
         toks[i] = toks[i] + "\nZZ = Sum(InFieldNames = " + "[" * 40 + "a" + "]" * 40 + ")\n"
     return "".join(toks)
@@ -798,12 +817,14 @@ def _all_command_classes():
     return [info.command for info in Command.get_commands() if info.module.startswith("mpilot.libraries")]
 
 
-def run_once(sc, log, res, route, text, csv, fs_faults, actor, exec_faults, libraries=None, cli_args=None):
+def run_once(sc, log, res, route, text, csv, fs_faults, actor, exec_faults, libraries=None, cli_args=None,
+             more_files=None):
     """One pass of the pipeline.  Returns dict(outcome, exc, exit_code, cap, fs, reject_seq)."""
     from mpilot.program import Program
 
     model = sc["model"]
     files = {model["table"]["path"]: csv} if csv is not None else {}
+    files.update(more_files or {})
     if route == "cli":
         files[MODEL_PATH] = text
     fs = SimFS(log, res, files=files, dirs=[WORK], faults=fs_faults, actor=actor)
@@ -823,9 +844,13 @@ def run_once(sc, log, res, route, text, csv, fs_faults, actor, exec_faults, libr
     def runaway(key, depth):
         res.violate(prop + ".runaway", prop + ".runaway unbounded-nesting",
                     "execute nesting reached %d in a model of %d commands (command %s)"
-                    % (depth, len(model["cmds"]), key))
+                    % (depth, ncmds, key))
 
-    mon = ExecMonitor(log, on_enter=on_enter, nesting_cap=len(model["cmds"]) + 3, on_runaway=runaway)
+    ncmds = len(model["cmds"])
+    for f in sc.get("faults") or []:
+        if f.get("kind") == "text" and f.get("op") == "deep-chain":
+            ncmds = max(ncmds, DEEP_N[f["tok"] % len(DEEP_N)])
+    mon = ExecMonitor(log, on_enter=on_enter, nesting_cap=ncmds + 3, on_runaway=runaway)
     out = {"outcome": "ok", "exc": None, "exit_code": None, "fs": fs, "monitor": mon}
     log.emit("route", route=route)
     with fs, StdCapture(log) as cap:
@@ -1245,6 +1270,7 @@ def _execute13(sc):
     res = RunResult()
     model = sc["model"]
     log = EventLog(cap=8000 + 400 * len(model["cmds"]))
+    log.blind_sizes = True      # corrupted tables bring NaN cells: see EventLog
     res.log = log
     faults = sc.get("faults", [])
     log.emit("scenario", prop="C13", route=sc["route"], extra=sc.get("extra"),
@@ -1287,6 +1313,25 @@ def _execute13(sc):
                                 csv = ",".join(cols_) + "\n" + "\n".join(body)
                 res.configured("csv-" + f["op"])
                 res.fired("csv-" + f["op"])
+    more_files = {}
+    for f in faults:
+        if f["kind"] == "csv" and f["op"] == "second-table":
+            # some of the columns are read from a second table of the same layout with another number of rows
+            reads = [n for n in nodes if n["cmd"] == "EEMSRead"]
+            head, _, rest = csv.partition("\n")
+            body = [ln for ln in rest.split("\n") if ln]
+            k = 1 + f["col"] % 2
+            body2 = body[:-k] if (f["col"] // 2) % 2 and len(body) > k else body + [body[-1] if body else
+                                                                                    ",".join("1" for _ in head.split(","))] * k
+            picked = [n for i, n in enumerate(reads) if (f["row"] >> i) & 1] or reads[:1]
+            for n in picked:
+                for a in n["args"]:
+                    if a[0] == "InFileName":
+                        a[1] = WORK + "/in2.csv"
+            more_files[WORK + "/in2.csv"] = head + "\n" + "\n".join(body2) + "\n"
+            res.configured("csv-second-table")
+            if picked and len(picked) < len(reads):
+                res.fired("csv-second-table")
     try:
         text, ledger = render(nodes, sc.get("layout") or PLAIN)
     except ValueError as exc:
@@ -1302,7 +1347,7 @@ def _execute13(sc):
             if new != text:
                 res.fired("text-" + f["op"])
             text = new
-        elif f["kind"] == "csv" and f["op"] not in ("odd-field-name", "odd-field-name-missing"):
+        elif f["kind"] == "csv" and f["op"] not in ("odd-field-name", "odd-field-name-missing", "second-table"):
             new = corrupt_csv(csv, f)
             res.configured("csv-" + f["op"])
             if new != csv:
@@ -1358,7 +1403,7 @@ def _execute13(sc):
         text = text.replace("\r\n", "\n").replace("\n\r", "\n").replace("\r", "\n")
     with Hygiene():
         out = run_once(sc, log, res, "lib", text, csv, copy.deepcopy(fs_faults), copy.deepcopy(actor),
-                       copy.deepcopy(exec_faults), libraries=libraries)
+                       copy.deepcopy(exec_faults), libraries=libraries, more_files=more_files)
         lib_kind = _classify(out, MPilotError)
         res.state_keys.add(h64(["lib", lib_kind, type(out["exc"]).__name__ if out["exc"] else None]))
         if lib_kind == "mpilot-error":
@@ -1384,7 +1429,7 @@ def _execute13(sc):
             res.probe("library outcome: " + lib_kind)
         if sc["route"] == "cli":
             out2 = run_once(sc, log, res, "cli", text, csv, copy.deepcopy(fs_faults), copy.deepcopy(actor),
-                            copy.deepcopy(exec_faults), cli_args=cli_args)
+                            copy.deepcopy(exec_faults), cli_args=cli_args, more_files=more_files)
             _judge13_cli(sc, res, out, lib_kind, out2, faults, extra, MPilotError)
     res.case_key = h64([[c["cmd"] for c in model["cmds"]], faults, extra])
     res.schedule_key = h64([sc.get("order"), faults])
